@@ -1,6 +1,7 @@
 """C20 - windows and helper functions follow their documented closed forms."""
 
 import ast
+import math
 from fractions import Fraction
 
 from .. import astq, spec, nonecheck
@@ -399,12 +400,70 @@ def integer_powers(ctx, R="R-C20-gamma"):
     ctx.floor(R + "/powers", n, 1)
 
 
+def gamma_by_evaluation(ctx, f, R="R-C20-gamma"):
+    """The Gamma window, sample by sample: for widths 0..6, orders 1, 2, 4 and peaks 3/4, 1/2, 1/4 the routine is evaluated by the
+    checker's interpreter over exact symbolic values (pdsa/varr.py) and every returned sample i compared with the documented
+    density at t = width - 1 - i: t^(order-1) exp(-alpha t) alpha^order / (order-1)! with alpha = (order-1) / (width - peak*width)
+    for order > 1 and 5 / width for order 1 (0^0 = 1: the order-1 window ends on its maximum alpha; for order > 1 the last sample
+    is 0); width <= 0 gives an empty window and width 1 gives [1].  However the routine lays out its time axis (descending,
+    ascending and reversed at the end), slices it, updates it in place - only the values count.  True when decided."""
+    from .. import varr as V
+    what = "every sample of the Gamma window equals t^(order-1) exp(-alpha t) alpha^order / (order-1)! at t = width - 1 - i"
+    wname = f.params[1]
+    n = 0
+    try:
+        for W in range(0, 7):
+            for order in (1, 2, 4):
+                for peak in (Fraction(3, 4), Fraction(1, 2), Fraction(1, 4)):
+                    n += 1
+                    env = {wname: W, "self.order": order, "self.peak": peak, "self._order": order, "self._peak": peak}
+                    try:
+                        got = V.run_function(f.node, env)
+                    except V.ShapeError as e:
+                        ctx.bad(R, f, f.node, "for width %d, order %d, peak %s evaluating the window fails: %s" % (W, order, peak, e), what, robust=True)
+                        return True
+                    if not isinstance(got, V.VArr):
+                        raise V.Unsupported("the window returns %s" % type(got).__name__)
+                    vals = got.values()
+                    if W <= 0:
+                        want = []
+                    elif W == 1:
+                        want = [S.ONE]
+                    else:
+                        alpha = Fraction(order - 1) / (W - peak * W) if order > 1 else Fraction(5, W)
+                        lnc = S.sub(S.mul(S.lift(order), S.call("log", S.lift(alpha))), S.call("log", S.lift(math.factorial(order - 1))))
+                        want = []
+                        for i in range(W):
+                            t = W - 1 - i
+                            if t == 0 and order > 1:
+                                want.append(S.ZERO)
+                            else:
+                                want.append(S.mul(S.lift(t ** (order - 1)), S.call("exp", S.add(S.lift(-alpha * t), lnc))))
+                    if len(vals) != len(want):
+                        ctx.bad(R, f, f.node, "for width %d (order %d, peak %s) the window has %d sample(s), expected %d" % (W, order, peak, len(vals), len(want)), what, robust=True)
+                        return True
+                    for i, (g, w) in enumerate(zip(vals, want)):
+                        r = S.compare(g, w, domain={}, expand_logs=True)
+                        if r["verdict"] == "differ":
+                            ctx.bad(R, f, f.node, "for width %d, order %d, peak %s sample %d (t = %d) is %s ; the documented density gives %s"
+                                    % (W, order, peak, i, W - 1 - i, S.show(g)[:90], S.show(w)[:90]), what, robust=True)
+                            return True
+                        if r["verdict"] != "equal":
+                            raise V.Unsupported("sample %d cannot be compared: %s" % (i, r.get("reason")))
+    except V.Unsupported:
+        return False      # outside the evaluator's vocabulary: the closed-form clauses below take over
+    ctx.ok(R, f.loc(), what, "%d combinations of width (0..6), order and peak evaluated" % n)
+    return True
+
+
 def gamma(ctx, R="R-C20-gamma"):
     prog = ctx.prog
     c = prog.module("filters").classes.get("GammaWindow")
     ctx.need(c is not None, R, "filters.GammaWindow vanished")
     f = prog.own_method(c, "get_impulse_response")
     fresh_and_pure(ctx, R, f, "GammaWindow.get_impulse_response")
+    if gamma_by_evaluation(ctx, f, R):
+        return
     ev = SymEval(prog, f, rename={"self.order": "n", "self.peak": "peak"}, inline_props=False).run()
     width = S.sym(f.params[1])
     rs = ev.returns
